@@ -107,8 +107,17 @@ func (g gen) oneUnescape(s string, class string) {
 func (g gen) randHeader(n int, mostlyPct bool) string {
 	r := g.o.Rand
 	b := make([]byte, 0, n)
+	valid := !mostlyPct && r.Intn(2) == 0 // only well-formed escapes and plain bytes
 	for len(b) < n {
 		switch k := r.Intn(10); {
+		case valid && k < 5:
+			b = append(b, []byte(fmt.Sprintf("%%%02X", r.Intn(256)))...)
+		case valid && k < 6:
+			b = append(b, []byte(fmt.Sprintf("%%%02x", r.Intn(256)))...)
+		case valid:
+			if c := byte(r.Intn(256)); c != '%' {
+				b = append(b, c)
+			}
 		case mostlyPct && k < 8:
 			b = append(b, '%')
 		case k < 3:
@@ -121,19 +130,23 @@ func (g gen) randHeader(n int, mostlyPct bool) string {
 			b = append(b, byte(r.Intn(256)))
 		}
 	}
+	if valid {
+		return string(b)
+	}
 	return string(b[:n])
 }
 
 func (g gen) unescapeCases() {
 	o := g.o
-	full := 4
-	if o.Thorough {
-		full = 5
-	}
+	full := 5
 	for n := 0; n <= full; n++ {
 		enumerate(headerAlphabet, n, func(b []byte) { g.oneUnescape(string(b), "exhaustive") })
 	}
-	for n := full + 1; n <= full+1; n++ {
+	small := full + 1
+	if o.Thorough {
+		small = full + 2
+	}
+	for n := full + 1; n <= small; n++ {
 		enumerate(headerAlphabetSmall, n, func(b []byte) { g.oneUnescape(string(b), "exhaustive-small") })
 	}
 	k := 1500
@@ -478,6 +491,13 @@ func (g gen) readCases() {
 		if len(body) >= 5 && int64(binary.BigEndian.Uint32(body[1:5])) > maxSize && !strings.HasPrefix(ans, "too-large alloc=S") {
 			o.Oracle("grpc-alloc-bound", in, "declared size over the limit: "+ans)
 			return
+		}
+		if len(body) >= 5 {
+			if d := int(binary.BigEndian.Uint32(body[1:5])); d <= maxSize && len(body)-5 >= d && err != nil {
+				o.Oracle("request-within-limit-accepted", in, fmt.Sprintf("complete message of %d bytes rejected: %v", d, err))
+				return
+			}
+			o.OracleOK("request-within-limit-accepted")
 		}
 		o.OracleOK("oversize-rejected-not-truncated")
 	}
